@@ -33,7 +33,7 @@ PROPS["C07"] = {
 }
 
 PROPS["C02"] = {
-    "units": ["h1_transfer_encoding", "h1_codec", "h1_dispatcher_io", "h1_chunked", "h1_poll_request"],
+    "units": ["h1_transfer_encoding", "h1_codec", "h1_dispatcher_io", "h1_chunked", "h1_poll_request", "h1_poll_response"],
     "kani": [],
     "technique": "Verus contracts on the extracted real TransferEncoding encoder against an RFC 7230 chunk-framing oracle (exact bytes appended, length enforcement, terminator exactly once, short body is an error)",
     "level_text": "deductive proof, for all chunk contents/lengths and encoder states, that TransferEncoding::encode/encode_eof append exactly the oracle's bytes (chunked: hex CRLF data CRLF, terminator once; sized: cut to the declared length; eof: pass-through) and that a short sized body yields UnexpectedEof; MessageEncoder::encode chooses the body framing from (HEAD?, body size, chunked allowed, upgrade stream) of THIS message only; Codec::encode encodes the head with exactly the context recorded when that request was decoded; poll_flush writes every buffered byte exactly once and in order; and the theorem decode-of-encode (lemma_decode_of_encode in unit h1_chunked, over the shared wire oracle specs/chunked_wire.vs): for every list of non-empty chunks, the bytes the chunked encoder writes are decoded by the RFC 7230 automaton to exactly their concatenation, ending in state End with nothing left over",
@@ -103,7 +103,7 @@ PROPS["C04"] = {
     "assumptions": ["poll_flush/read_available precondition: the io object is present (it is only taken on upgrade)"],
 }
 PROPS["C05"] = {
-    "units": ["h1_dispatcher_io", "h1_poll_request", "h1_payload", "multipart_payload", "web_payload_body"],
+    "units": ["h1_dispatcher_io", "h1_poll_request", "h1_poll_response", "h1_payload", "multipart_payload", "web_payload_body"],
     "kani": [],
     "technique": "Verus contracts on the individual guard mechanisms: read_available's buffer cap, the body channel's back-pressure flag, bounded extractor/multipart buffers",
     "level_text": "deductive proof of each guard under contract, for all inputs: read_available attempts no read once read_buf holds MAX_BUFFER_SIZE bytes and otherwise only appends; the body channel's need_read flag is exactly (buffered < 32 KiB) after every feed/poll and can_read refuses to read while the consumer applies back-pressure; poll_stream/append_pending never grow the multipart buffer past its limit; HttpMessageBody never buffers beyond its limit",
@@ -113,7 +113,7 @@ PROPS["C05"] = {
 }
 
 PROPS["C03"] = {
-    "units": ["h1_dispatcher_io", "h1_codec", "h1_poll_request"],
+    "units": ["h1_dispatcher_io", "h1_codec", "h1_poll_request", "h1_poll_response"],
     "kani": [],
     "technique": "Verus contracts on the extracted real decision functions of the reuse discipline: should_close_for_unread_payload, enter_linger, can_read, read_available's FINISHED handling, Codec's connection-type bookkeeping",
     "level_text": "deductive proof, for all states, of the functions that implement close-means-close: the unread-payload close decision equals `body unfinished and not (dropped and drainable)`; enter_linger clears KEEP_ALIVE and sets LINGER|FINISHED touching nothing else; no read is attempted after READ_DISCONNECT; while an unread, dropped request body is being drained a successful read does not clear FINISHED (so the close decision survives the drain) and no other flag is touched; the codec records Close when keep-alive is disabled and a response's Close/Upgrade overrides the recorded type; body bytes are never handed to the head parser while a payload decoder is installed",
